@@ -1,14 +1,23 @@
-(* Property C14 -- loop-carried dependencies are invariant under rotation of the loop body.   PARTIAL.
-   Proved (Proofs/Rotation.v):
-   (1) about the model: the dependency scan is prefix-determined, so the edges of the doubled kernel between two
-       positions depend only on the instructions between them (they are a window of the periodic stream's edges);
-   (2) abstractly: for any periodic edge relation on stream positions the cross-iteration paths seen through the
-       unrotated window and through any rotated window correspond one to one with equal members (modulo the period)
-       and equal weights.
-   NOT proved: the glue between (1) and (2) for Model/Deps.lcd_entries (line numbers, offset, de-duplication).
-   The property itself is decided by the exhaustive-rotation metamorphic oracle of checks/c14.py. *)
-From Coq Require Import List Bool Arith.
-From OV Require Import Model.Num Model.Pressure Model.Deps Proofs.Rotation.
+(* Property C14 -- loop-carried dependencies are invariant under rotation of the loop body.
+   Proved:
+   (1) Proofs/Rotation.v, about the model: the dependency scan is prefix-determined;
+   (2) Proofs/Rotation.v, abstractly: for any periodic forward edge relation on stream positions the cross-iteration paths seen
+       through the unrotated window and through any rotated window correspond one to one with equal members (modulo the
+       period) and equal weights;
+   (3) Proofs/RotationGlue.v, the GLUE for Model/Deps: with canonical line numbers 1..n (renumber) the dependency graph of the
+       doubled rotated kernel is the window [r, r + 2n) of the instruction stream's edge relation (C14_window_edges), hence
+       * C14_rotation_paths: the paths lcd_entries enumerates for `renumber k` and for `rotate r k` correspond, visiting the
+         same instructions of k in the same order with the same edge weights (any numeric instance, any dep/fwd/pidx/flagdeps,
+         no side condition except r < length k and fuel >= length k);
+       * C14_rotation_raw: the entries before de-duplication correspond with EQUAL latency sums and the same members;
+       * C14_rotation_lcd_entries: after de-duplication every reported entry has a counterpart that is pairs_eqb-equal to an
+         entry of the same cycle (numeric == reflexive);
+       * C14_rotation_lcd_entries_Q / C14_rotation_lcd_figure_Q: for exact rationals the reported sums are == and the LCD
+         figure (largest sum) is ==.
+   Not a theorem: for floats the kept representative of a cycle may start at a different root after rotation, so its sum adds the
+   same weights in a different order (checks/c14.py compares with a tolerance / reports it). *)
+From Coq Require Import List Bool Arith QArith Permutation.
+From OV Require Import Model.Num Model.Pressure Model.Deps Proofs.LCD Proofs.Rotation Proofs.RotationGlue.
 Import ListNotations.
 
 Theorem C14_scan_prefix_determined : forall (T : Type) (dep : regop -> regop -> bool) fd d (pre post : list (line (T:=T))) s,
@@ -36,3 +45,99 @@ Proof.
     | apply Nat.eqb_neq in E1; apply Nat.eqb_eq in E2; exfalso; apply E1; apply (f_equal (fun x => x - 2)) in E2;
       rewrite !Nat.add_sub in E2; exact E2].
 Qed.
+
+(* ------------------------------------------------------------------ the glue (Proofs/RotationGlue.v) *)
+Local Open Scope nat_scope.
+
+(* WINDOW LEMMA: if L is, up to line numbers (strip), the window [s, s + |L|) of an instruction stream f and its line numbers are
+   pairwise different, then the register/flag/memory edges of create_dg L are exactly the stream edges between its positions;
+   stream_E f a b depends on the instructions f a .. f b only *)
+Theorem C14_window_edges : forall (T : Type) (N : NumOps T) dep fwd pidx fd (L : list (line (T:=T))) f s,
+  NoDup (map l_no L) -> is_window N L f s ->
+  forall a b w, a < List.length L -> b < List.length L ->
+    (In (l_no (nth b L (dline N)), w) (succs (create_dg N dep fwd pidx fd L) (l_no (nth a L (dline N))))
+     <-> stream_E N dep fwd pidx fd f (s + a) (s + b) = Some w).
+Proof. intros T N dep fwd pidx fd. exact (window_edges N dep fwd pidx fd). Qed.
+Print Assumptions C14_window_edges.
+
+(* the doubled rotated kernel is the window [r, r + 2n) of the stream `body k`, and instr_id names the right instruction *)
+Theorem C14_doubled_window : forall (T : Type) (N : NumOps T) (k : list (line (T:=T))) r, r < List.length k ->
+  is_window N (doubled (rotate r k)) (body N k) r /\
+  forall l, In l (doubled (rotate r k)) -> strip l = strip (nth (instr_id k r (l_no l)) k (dline N)).
+Proof. intros T N k r Hr. split; [exact (doubled_window N k r Hr) | exact (instr_id_correct N k r Hr)]. Qed.
+Print Assumptions C14_doubled_window.
+
+(* ROTATION INVARIANCE OF THE CROSS-ITERATION PATHS *)
+Theorem C14_rotation_paths : forall (T : Type) (N : NumOps T) dep fwd pidx fd (k : list (line (T:=T))) r fuel fuel',
+  r < List.length k -> List.length k <= fuel -> List.length k <= fuel' ->
+  (forall l p, In l (renumber k) -> In p (lcd_paths N dep fwd pidx fd fuel (renumber k) l) ->
+     exists l' p', In l' (rotate r k) /\ In p' (lcd_paths N dep fwd pidx fd fuel' (rotate r k) l') /\
+                   ident_path k r p' = ident_path k 0 p) /\
+  (forall l' p', In l' (rotate r k) -> In p' (lcd_paths N dep fwd pidx fd fuel' (rotate r k) l') ->
+     exists l p, In l (renumber k) /\ In p (lcd_paths N dep fwd pidx fd fuel (renumber k) l) /\
+                 ident_path k 0 p = ident_path k r p').
+Proof.
+  intros T N dep fwd pidx fd k r fuel fuel' Hr Hf Hf'. split.
+  - exact (rotation_glue N dep fwd pidx fd k r fuel fuel' Hr Hf').
+  - exact (rotation_glue_conv N dep fwd pidx fd k r fuel fuel' Hr Hf).
+Qed.
+Print Assumptions C14_rotation_paths.
+
+(* ... of the entries before de-duplication: equal latency sums (same additions in the same order), same members *)
+Theorem C14_rotation_raw : forall (T : Type) (N : NumOps T) dep fwd pidx fd (k : list (line (T:=T))) r, r < List.length k ->
+  (forall e, In e (lcd_raw N dep fwd pidx fd (renumber k)) ->
+     exists e', In e' (lcd_raw N dep fwd pidx fd (rotate r k)) /\
+                fst e' = fst e /\ Permutation (entry_ident k r e') (entry_ident k 0 e)) /\
+  (forall e', In e' (lcd_raw N dep fwd pidx fd (rotate r k)) ->
+     exists e, In e (lcd_raw N dep fwd pidx fd (renumber k)) /\
+               fst e' = fst e /\ Permutation (entry_ident k r e') (entry_ident k 0 e)).
+Proof. intros T N dep fwd pidx fd k r Hr. exact (rotation_raw N dep fwd pidx fd k r Hr). Qed.
+Print Assumptions C14_rotation_raw.
+
+Theorem C14_lcd_entries_is_dedup_of_raw : forall (T : Type) (N : NumOps T) dep fwd pidx fd (K : list (line (T:=T))),
+  lcd_entries N dep fwd pidx fd K = dedup_by (pairs_eqb N) [] (lcd_raw N dep fwd pidx fd K).
+Proof. intros. reflexivity. Qed.
+Print Assumptions C14_lcd_entries_is_dedup_of_raw.
+
+(* ... of lcd_entries, any numeric instance with reflexive == *)
+Theorem C14_rotation_lcd_entries : forall (T : Type) (N : NumOps T) dep fwd pidx fd (k : list (line (T:=T))) r,
+  (forall a, neqb N a a = true) -> r < List.length k ->
+  (forall e, In e (lcd_entries N dep fwd pidx fd (renumber k)) ->
+     exists e' e'', In e'' (lcd_entries N dep fwd pidx fd (rotate r k)) /\ In e' (lcd_raw N dep fwd pidx fd (rotate r k)) /\
+                    same_cycle k r e e' /\ pairs_eqb N (snd e') (snd e'') = true) /\
+  (forall e', In e' (lcd_entries N dep fwd pidx fd (rotate r k)) ->
+     exists e e0, In e0 (lcd_entries N dep fwd pidx fd (renumber k)) /\ In e (lcd_raw N dep fwd pidx fd (renumber k)) /\
+                  same_cycle k r e e' /\ pairs_eqb N (snd e) (snd e0) = true).
+Proof. intros T N dep fwd pidx fd k r R Hr. exact (rotation_lcd_entries N dep fwd pidx fd k r R Hr). Qed.
+Print Assumptions C14_rotation_lcd_entries.
+
+(* ... for exact rationals: same latency sums (==), same members with ==-equal latencies, same LCD figure *)
+Theorem C14_rotation_lcd_entries_Q : forall dep (fwd pidx : Q) fd (k : list (line (T:=Q))) r, r < List.length k ->
+  (forall e, In e (lcd_entries QNum dep fwd pidx fd (renumber k)) ->
+     exists e'', In e'' (lcd_entries QNum dep fwd pidx fd (rotate r k)) /\ (fst e'' == fst e)%Q /\
+                 same_members (entry_ident k 0 e) (entry_ident k r e'')) /\
+  (forall e', In e' (lcd_entries QNum dep fwd pidx fd (rotate r k)) ->
+     exists e0, In e0 (lcd_entries QNum dep fwd pidx fd (renumber k)) /\ (fst e0 == fst e')%Q /\
+                same_members (entry_ident k r e') (entry_ident k 0 e0)).
+Proof. intros dep fwd pidx fd k r Hr. exact (rotation_lcd_entries_Q dep fwd pidx fd k r Hr). Qed.
+Print Assumptions C14_rotation_lcd_entries_Q.
+
+Theorem C14_rotation_lcd_figure_Q : forall dep (fwd pidx : Q) fd (k : list (line (T:=Q))) r, r < List.length k ->
+  (qmaxl (map fst (lcd_entries QNum dep fwd pidx fd (rotate r k))) ==
+   qmaxl (map fst (lcd_entries QNum dep fwd pidx fd (renumber k))))%Q.
+Proof. intros dep fwd pidx fd k r Hr. exact (rotation_lcd_figure_Q dep fwd pidx fd k r Hr). Qed.
+Print Assumptions C14_rotation_lcd_figure_Q.
+
+(* non-vacuity: a concrete 3-line kernel (a <- f(c); b <- f(a); c <- f(b)) with one cross-iteration cycle; both sides of
+   C14_rotation_paths are inhabited and name the same instructions; both lcd_entries are non-empty *)
+Example C14_glue_nonvacuous :
+  lcd_paths QNum (fun a b => String.eqb (r_name a) (r_name b)) 0%Q 0%Q true 8 (renumber ex_kernel)
+            (nth 0 (renumber ex_kernel) (dline QNum)) = [[(1, 1%Q); (2, 2%Q); (3, 3%Q)]] /\
+  lcd_paths QNum (fun a b => String.eqb (r_name a) (r_name b)) 0%Q 0%Q true 8 (rotate 1 ex_kernel)
+            (nth 2 (rotate 1 ex_kernel) (dline QNum)) = [[(3, 1%Q); (1001, 2%Q); (1002, 3%Q)]] /\
+  ident_path ex_kernel 1 [(3, 1%Q); (1001, 2%Q); (1002, 3%Q)] = ident_path ex_kernel 0 [(1, 1%Q); (2, 2%Q); (3, 3%Q)] /\
+  lcd_entries QNum (fun a b => String.eqb (r_name a) (r_name b)) 0%Q 0%Q true (renumber ex_kernel)
+    = [(6%Q, [(1, 1%Q); (2, 2%Q); (3, 3%Q)])] /\
+  lcd_entries QNum (fun a b => String.eqb (r_name a) (r_name b)) 0%Q 0%Q true (rotate 1 ex_kernel)
+    = [(6%Q, [(1, 2%Q); (2, 3%Q); (3, 1%Q)])].
+Proof. vm_compute. repeat split; reflexivity. Qed.
